@@ -686,6 +686,30 @@ pub fn scenario(stream: &str, r: &mut Rng, idx: u64) -> Vec<String> {
             }
             out.push(format!("sfinish {}", r.pick(&["stream", "writer", "cursors"])));
         }
+        "sorter" if r.chance(1, 10) => {
+            // C08, volume: a budget a little below one of the buffer sizes init·2^k and entries that pack badly
+            // (each at most a quarter of the budget): a spill decision taken on anything but the buffer
+            // length lets the buffer double once more and the unspilled volume pass twice the budget
+            let init = *r.pick(&[512u64, 1024, 2048]);
+            let top = init << r.range(2, 4);
+            let budget = top * r.range(86, 97) / 100;
+            let realloc = if r.chance(5, 6) { 1 } else { 0 };
+            let maxchunks = *r.pick(&[0u64, 2, 5, 25]);
+            let creator = *r.pick(&["custom", "custom", "cursorvec"]);
+            out.push(format!(
+                "scfg creator={} thr={} minmem={} init={} realloc={} maxchunks={} stable=1 par=0 codec=0 bs=8192",
+                creator, if r.chance(1, 2) { 0 } else { budget }, budget, init, realloc, maxchunks
+            ));
+            out.push("snew sum 0".into());
+            let frac = r.range(15, 24); // entry size as a percentage of the budget
+            let esize = (budget * frac / 100).max(32);
+            for i in 0..r.range(12, 40) {
+                let k = vec![b'k', (i / 256) as u8, (i % 256) as u8];
+                let vlen = (esize - 16 - 3 - r.below(8)) as usize;
+                out.push(format!("sins {} {}", hex(&k), hex(&vec![b'v'; vlen])));
+            }
+            out.push(format!("sfinish {}", r.pick(&["stream", "writer"])));
+        }
         "sorter" | "sorterio" => {
             let minmem = *r.pick(&[64u64, 128, 256, 512, 1024]);
             let init = *r.pick(&[16u64, 32, 64, 128]);
